@@ -18,6 +18,7 @@ Driver for C18 (governance updates). One output line per input line.
   `err ## refusal-not-in-model` (params unchanged, DRIFT); accepted by the code only → `err` (disagrees with the code's `ok`)
 * `mignone` = `migrate` with a `null` message → `ok`, nothing changes
 * `setwl m= now= wlp=<d:a>` → `ok` | `err`
+* `xexec v=<variant>` → `noise` (a factory ExecuteMsg variant found in the schema at run time that the model does not know)
 
 Output lines are `primary ## outside-projection`. Money-moving ops answer `ok fee=<everything that did not go to the seller>
 seller=<seller's share> ## dev= liq= lp= burn= pool=` (the split between the fee recipients belongs to C06/C02), `qm` answers
@@ -169,6 +170,7 @@ def c18Line (d : D) (line : String) : D × String :=
         match (natKv ws "m").bind w.minter with
         | some r => (d, s!"minter kind={r.kind.idx} price={rc r.price} pal={r.pal} ## mintable={renderOpt r.mintable}")
         | none => (d, "err")
+      | "xexec" => (d, "noise")   -- an execute variant the model has no operation for: must change nothing (monitored)
       | "upd" =>
         -- governance update (sudo or migrate: the same function of the params) with the implementation's verdict
         match parseUpd ws, (kv ws "acc").bind bool? with
